@@ -716,6 +716,20 @@ pub fn gen_scenarios(seed: u64, tier: &str) -> Vec<Scenario> {
             out.push(Scenario { id, init, progs: vec![p0, p1], policy, class: "directed:seen-then-foreign-commit-same-length".into(), pidns: false, alias: id % 20 == 16 });
             continue;
         }
+        if id % 25 == 13 {
+            // directed (oracle only, no gates): one session LISTS the tree, another server then commits other bytes of the SAME
+            // LENGTH at a listed path and the file's timestamp is put back to the listed version's, then the first session
+            // GETS the path: what a server remembers from its List must not be announced for bytes it did not hash
+            let big = (id / 25) % 2 == 0;
+            let n = if big { (1usize << 20) + 37 } else { 4 };
+            let x: Vec<u8> = (0..n).map(|k| (k % 251) as u8).collect();
+            let y: Vec<u8> = (0..n).map(|k| ((k * 7 + 3) % 253) as u8).collect();
+            let init = vec![(shared.to_string(), x.clone())];
+            let p0 = vec![Req::Get { path: shared.to_string() }];
+            let p1 = vec![Req::Put { path: shared.to_string(), exp: Some(x.clone()), decl: y.clone(), len: n as u64, pieces: vec![y.clone()] }];
+            out.push(Scenario { id, init, progs: vec![p0, p1], policy: vec![], class: "directed:list-then-foreign-commit-then-get".into(), pidns: false, alias: false });
+            continue;
+        }
         if id % 10 == 7 {
             // directed: a Delete that expects NOTHING at an absent path has taken the lock, found nothing and stands right before
             // its (harmless) unlink - then another server CREATES the path (Put expecting nothing) - then the Delete goes on.
@@ -771,6 +785,72 @@ pub fn dir_clash(sc: &Scenario) -> bool {
     all.iter().any(|p| all.iter().any(|q| q.starts_with(&format!("{}/", p))))
 }
 
+/// the ungated directed scenario `list-then-foreign-commit-then-get` (see gen_scenarios)
+fn run_list_cache(sc: &Scenario, work: &str, copia: &str) -> RunResult {
+    use std::io::{Read, Write};
+    let mut fails = vec![];
+    let root = format!("{}/lc{}/HUB", work, sc.id);
+    let _ = std::fs::remove_dir_all(format!("{}/lc{}", work, sc.id));
+    std::fs::create_dir_all(&root).unwrap();
+    let (path, x) = (&sc.init[0].0, &sc.init[0].1);
+    let full = format!("{}/{}", root, path);
+    if let Some(d) = std::path::Path::new(&full).parent() { std::fs::create_dir_all(d).unwrap(); }
+    std::fs::write(&full, x).unwrap();
+    let t0 = std::fs::metadata(&full).unwrap().modified().unwrap();
+    let y = match &sc.progs[1][0] { Req::Put { decl, .. } => decl.clone(), _ => vec![] };
+    let mut a = std::process::Command::new(copia).arg("serve").arg(&root).stdin(std::process::Stdio::piped()).stdout(std::process::Stdio::piped())
+        .stderr(std::process::Stdio::null()).spawn().unwrap();
+    let mut ain = a.stdin.take().unwrap();
+    let mut aout = a.stdout.take().unwrap();
+    let mut first = MAGIC.to_vec();
+    first.extend(frame(&Request::Hello { version: VERSION }));
+    first.extend(frame(&Request::List));
+    ain.write_all(&first).unwrap();
+    ain.flush().unwrap();
+    // wait for the two replies (Hello, Fingerprints)
+    let mut got: Vec<u8> = vec![];
+    let mut buf = [0u8; 65536];
+    let t_start = std::time::Instant::now();
+    while parse_replies(&got).0.len() < 2 && t_start.elapsed() < std::time::Duration::from_secs(20) {
+        match aout.read(&mut buf) { Ok(0) => break, Ok(n) => got.extend_from_slice(&buf[..n]), Err(_) => break }
+    }
+    // another server commits y (same length) at the path
+    let mut inp = MAGIC.to_vec();
+    inp.extend(frame(&Request::Hello { version: VERSION }));
+    inp.extend(frame(&Request::Put { path: path.clone(), expected: Some(h32(x)), len: y.len() as u64, hash: h32(&y) }));
+    inp.extend(&y);
+    inp.extend(frame(&Request::Bye));
+    let mut b = std::process::Command::new(copia).arg("serve").arg(&root).stdin(std::process::Stdio::piped()).stdout(std::process::Stdio::piped())
+        .stderr(std::process::Stdio::null()).spawn().unwrap();
+    b.stdin.take().unwrap().write_all(&inp).unwrap();
+    let bo = b.wait_with_output().unwrap();
+    let (brs, _) = parse_replies(&bo.stdout);
+    let committed = brs.iter().any(|r| r.starts_with("PutResult:true"));
+    // ... within the same clock tick as the listed version: the timestamp is put back
+    if let Ok(f) = std::fs::OpenOptions::new().write(true).open(&full) { let _ = f.set_modified(t0); }
+    let mut rest = frame(&Request::Get { path: path.clone() });
+    rest.extend(frame(&Request::Bye));
+    let _ = ain.write_all(&rest);
+    drop(ain);
+    let _ = aout.read_to_end(&mut got);
+    let _ = a.wait();
+    let (ars, _) = parse_replies(&got);
+    let on_disk = std::fs::read(&full).unwrap_or_default();
+    match ars.iter().find(|r| r.starts_with("Content:")) {
+        Some(c) => {
+            if !c.contains(":HASHOK:") {
+                fails.push(format!("{} C10 a Get announced a hash its bytes do not have (session listed the tree, another server then committed {} bytes of the same length at {:?}, timestamp unchanged): {}", sc.id, y.len(), path, c.chars().take(60).collect::<String>()));
+            }
+        }
+        None => fails.push(format!("{} C10 the Get after a List got no Content reply: {:?}", sc.id, ars.iter().map(|r| r.chars().take(40).collect::<String>()).collect::<Vec<_>>())),
+    }
+    if committed && on_disk != y {
+        fails.push(format!("{} C03 an acknowledged commit is not the content of the path afterwards", sc.id));
+    }
+    let _ = std::fs::remove_dir_all(format!("{}/lc{}", work, sc.id));
+    RunResult { case_line: String::new(), impl_line: String::new(), fails, estep_count: 0, real_steps: 0 }
+}
+
 pub fn main(a: Args) -> i32 {
     let mut out = Out::new(&a.out);
     let copia = a.rest.iter().position(|x| x == "--copia").map(|i| a.rest[i + 1].clone()).expect("--copia");
@@ -784,9 +864,12 @@ pub fn main(a: Args) -> i32 {
     let mut distinct = std::collections::HashSet::new();
     let mut nfail = 0u64;
     for sc in &scs {
-        let r = run_scenario(sc, &work, &shim, &copia);
+        let ungated = sc.class == "directed:list-then-foreign-commit-then-get";
+        let r = if ungated { run_list_cache(sc, &work, &copia) } else { run_scenario(sc, &work, &shim, &copia) };
         out.line("scen.txt", &fmt_scenario(sc));
-        if dir_clash(sc) {
+        if ungated {
+            out.count("ungated_oracle_only_scenarios");
+        } else if dir_clash(sc) {
             out.count("dir_clash_scenarios_oracle_only");
         } else {
             out.line("cases.txt", &r.case_line);
